@@ -53,7 +53,7 @@ class Prop(SeqProp):
             ops = []
             for _ in range(rng.randint(3, 10)):
                 k = rng.choice(["argsort", "subseq", "search", "cmp", "batch", "batchiter", "batchiter2", "batchnew", "batchlen",
-                                "subseqE", "searchE"])
+                                "subseqE", "searchE", "batchlazy"])
                 alpha = rng.choice([2, 3])
                 seq = lambda m: [rng.randrange(alpha) for _ in range(rng.randint(0, m))]
                 s = lambda xs: " ".join(map(str, xs))
@@ -89,6 +89,11 @@ class Prop(SeqProp):
                     xs = list(range(10, 10 + rng.randint(0, 9)))
                     ys = list(range(50, 50 + rng.choice([len(xs), rng.randint(0, 9)])))
                     ops.append(f"batchiter2 {rng.randint(1, 5)} {s(xs)} | {s(ys)}".replace("  ", " "))
+                elif k == "batchlazy":
+                    # the generator as a consumer of its source (Model/BatcherLazy.lean): k calls of next(), a source that may
+                    # raise once it is used up; how many items were pulled and what each call gave
+                    data = list(range(10, 10 + rng.randint(0, 9)))
+                    ops.append(f"batchlazy {rng.randint(1, 4)} {rng.randint(0, 1)} {rng.randint(0, 6)} {s(data)}".rstrip())
                 elif k == "batchnew":
                     lens = [rng.randint(0, 3) for _ in range(rng.randint(1, 3))]
                     if rng.random() < 0.6:
@@ -164,6 +169,31 @@ class Prop(SeqProp):
                     t = g.Batcher((data, [x * 2 for x in data]), int(w[1]))[int(w[2])]
                     if list(t[1]) != [x * 2 for x in t[0]] or list(t[0]) != list(g.Batcher(data, int(w[1]))[int(w[2])]):
                         out[-1] += " tuple-mismatch"
+                elif k == "batchlazy":
+                    b, fails, calls = int(w[1]), w[2] == "1", int(w[3])
+                    data = [int(x) for x in w[4:]]
+                    pulled = [0]
+
+                    class SourceFailed(Exception):
+                        pass
+
+                    def source():
+                        for x in data:
+                            pulled[0] += 1
+                            yield x
+                        if fails:
+                            raise SourceFailed()
+
+                    it = iter(g.BatcherIter(source(), b))
+                    outs = []
+                    for _ in range(calls):
+                        try:
+                            outs.append(s(next(it)).replace(" ", ","))
+                        except StopIteration:
+                            outs.append("S")
+                        except SourceFailed:
+                            outs.append("R")
+                    out.append(f"pulled:{pulled[0]} out:{';'.join(outs)}")
                 elif k == "batchlen":
                     out.append(f"ret {len(g.Batcher(range(int(w[1])), int(w[2])))}")
                 elif k == "batchrange":
@@ -273,6 +303,12 @@ class Prop(SeqProp):
                 return f"op {i} `{op[:120]}`: {line[:200]!r}, reference gives {exp[:200]!r}"
         return None
 
+    def observable_kind(self, case, i, model_line, impl_line):
+        # how far a BatcherIter has consumed its source when it hands a batch over, and what it does when the source raises, is
+        # in the model (Model/BatcherLazy.lean) but not in the property's statement: a difference there breaks the
+        # correspondence and starts the search for a failing input, it is not reported as a failure of the property by itself
+        return "MO" if case.ops[i].startswith("batchlazy") else "PO"
+
     # the first calls a process makes to the numeral functions come from several threads at once (harness/threads.py), then
     # the whole domain is swept: a memo table filled on demand must not get out of step
     def extra_scenarios(self, rng, tier):
@@ -281,11 +317,6 @@ class Prop(SeqProp):
         # itself (a NaN), equal objects of different types (1, 1.0, True), None, nested tuples and lists
         for _ in range(150 if tier == "quick" else 1500):
             out.append({"kind": "odd-elements", "seed": rng.randrange(1 << 30)})
-        # BatcherIter over a source that is consumed only as far as the batches handed over need it: a source that raises later,
-        # an iteration that is abandoned after some batches
-        for _ in range(40 if tier == "quick" else 400):
-            out.append({"kind": "batcheriter-lazy", "n": rng.randint(0, 12), "b": rng.randint(1, 4), "take": rng.randint(0, 4),
-                        "tuple": rng.random() < 0.4})
         # Batcher iterated (for / list / zip) and indexed, over sequences that are not lists: str, bytes, range, tuples of them
         for _ in range(60 if tier == "quick" else 600):
             out.append({"kind": "batcher-sequences", "n": rng.randint(0, 11), "b": rng.randint(1, 5), "type": rng.randrange(7)})
